@@ -161,6 +161,8 @@ def run(tier, seed):
         "for a singular normal matrix Envelope::solve/inverse are compared with the inverse of the sub-block of independent pivots "
         "padded with zeros (what the LDL' convention with zeroed pivots defines)",
         "block-diagonal Cholesky/Homogenization: SPD band blocks with kappa_1 <= 1e8, tolerance (1e-13 + 100 eps kappa_1) * scale",
+        "Envelope(const BlockDiagonal&) (called nowhere in gama, outside the statement) is compared with the dense block matrix "
+        "for information only: counters envelope_from_blockdiagonal_compared / _mismatch, never a violation",
         "not exercised: Envelope::set with a column index repeated inside one row (not produced by gama's linearisations); "
         "Homogenization with zero observations; upperSolve with start > 1 (never called that way)",
     ]
